@@ -18,6 +18,10 @@ def main():
     seed = int(os.environ.get('VERIF_SEED', '0') or 0)
     mod = importlib.import_module(f'contracts.{a.pid}')
     if a.replay:
+        try:        # the bounded tier's oracles register on import
+            importlib.import_module(f'contracts.{a.pid}_c')
+        except ImportError:
+            pass
         sys.exit(mod.replay(a.replay))
     run = Run(a.pid, a.tier, seed, level=getattr(mod, 'LEVEL', 'other'))
     run.only = a.only
